@@ -72,6 +72,20 @@ def replay_violation(pid, mod, obname, v, work, idx):
     return res
 
 
+def confirm(mod, obname, v):
+    """run the real code on a path model on which the claim was proved; status 'mismatch' = the real code satisfies the claim."""
+    fn = getattr(mod, 'REPLAY', {}).get(obname) or getattr(mod, 'REPLAY', {}).get('*')
+    if fn is None and 'scenario_t' in v and hasattr(mod, 'ORACLE'):
+        fn = generic_replay(mod)
+    if fn is None:
+        return {'status': 'unavailable', 'detail': 'no replay builder'}
+    try:
+        return fn(v, run_scenario)
+    except Exception as e:   # noqa
+        import traceback
+        return {'status': 'unavailable', 'detail': 'replay builder failed: %r %s' % (e, traceback.format_exc()[-300:])}
+
+
 def replay_file(path):
     with open(path) as f:
         d = json.load(f)
